@@ -57,7 +57,7 @@ def eval_cases(rng, count, extra):
 
 
 def strip(obs):
-    return {k: v for k, v in obs.items() if k != 'def_ids'}
+    return S.pub(obs)
 
 
 def run(tier, seed, replay_case=None):
